@@ -6,7 +6,7 @@
 From Via Require Import M_Char M_Encode M_Parse M_Receive M_Server P_Server.
 Local Open Scope N_scope.
 
-From Via Require Import P_C09.
+From Via Require Import P_C09 P_Shapes.
 
 Theorem C09_never_truncated : forall recipe_of o evs, o_tls o = false ->
   ~ In_truncated (snd (run recipe_of o w_init evs)).
